@@ -2,6 +2,7 @@
    N/Z/positive/nat stay Coq datatypes; no Extract Constant). Run from the output dir. *)
 From Coq Require Import Extraction ExtrOcamlBasic.
 From KV Require Import Bytes WalCodec Memtable Engine.
+From KV Require Import Hist.
 Extraction Language OCaml.
 Set Extraction Output Directory ".".
 Separate Extraction
@@ -13,4 +14,5 @@ Separate Extraction
   Memtable.mt_iter_entries Memtable.seek_ge Memtable.mt_put Memtable.mt_del Memtable.mt_get
   Memtable.mt_set_imm Memtable.mt_empty
   Engine.init Engine.put Engine.del Engine.apply_batch Engine.tx_commit Engine.get Engine.flush
-  Engine.reopen Engine.run Engine.buffer_ops.
+  Engine.reopen Engine.run Engine.buffer_ops
+  Hist.lin_check Hist.lin_verdicts.
